@@ -39,7 +39,9 @@ type Config struct {
 	Arm     []string `json:"arm,omitempty"` // yield sites at which arriving goroutines are parked
 	ChanCap int      `json:"chan_cap"`
 	NoTS    bool     `json:"no_ts"`
-	// InsertSource: what the Ctrl+I source does in this run: "" works, "err" is unreadable, "empty" yields nothing
+	// InsertSource: what the Ctrl+I source does from the start of this run: ""
+	// works, "err" is unreadable, "empty" yields nothing ("src_mode" actions
+	// change it at quiescent points)
 	InsertSource string `json:"insert_source,omitempty"`
 	Stall        bool   `json:"stall,omitempty"` // nobody takes entered lines off the input channel until a "drain" action (no shell attached)
 	Steps        int    `json:"steps"`
@@ -47,10 +49,11 @@ type Config struct {
 
 // Action is one macro-step stimulus.
 type Action struct {
-	K    string `json:"k"`              // key | plain | status | sleep | grant | grant_all | eof
+	K    string `json:"k"`              // key | plain | status | sleep | grant | grant_all | eof | drain | src_mode | src_hold | src_release
 	B    []byte `json:"b,omitempty"`    // typed bytes / token
 	Ns   int64  `json:"ns,omitempty"`   // sleep
 	Site string `json:"site,omitempty"` // grant
+	Mode string `json:"mode,omitempty"` // src_mode: ok | err | empty; src_hold: "" (reads which give the payload are slow) | all (failing and empty ones too)
 }
 
 func (a Action) String() string {
@@ -103,30 +106,39 @@ type sim struct {
 	plainSent  []tok
 	statusSent []tok
 
-	step        int
-	actions     []Action
-	script      []Action
-	scriptPos   int
-	replay      bool
-	invalid     bool
-	harnessErr  string
-	found       []simkit.Found
-	trace       []string
-	stepObs     []string
-	faults      map[string]int64
-	probes      map[string]int64
-	nontrivial  bool
-	typedLines  []string
-	curLine     []byte
-	simNanos    int64
-	noJudge     bool // an exact tie with the un-mute instant happened: timing no longer judged
-	stepStart   int64
-	expectIch   []string
-	sentEOF     bool
-	lastAct     Action
-	stalled     bool
-	insertModes []string
-	suppressed  []tok // shell output known to have been suppressed
+	step       int
+	actions    []Action
+	script     []Action
+	scriptPos  int
+	replay     bool
+	invalid    bool
+	harnessErr string
+	found      []simkit.Found
+	trace      []string
+	stepObs    []string
+	faults     map[string]int64
+	probes     map[string]int64
+	nontrivial bool
+	typedLines []string
+	curLine    []byte
+	simNanos   int64
+	noJudge    bool // an exact tie with the un-mute instant happened: timing no longer judged
+	stepStart  int64
+	expect     []expEnt // what the operator entered, in order
+	sentEOF    bool
+	lastAct    Action
+	stalled    bool
+	// the Ctrl+I source: what a read that begins now gives ("" the payload,
+	// "err", "empty") and whether reads are slow (they begin, and return only
+	// once "src_release" lets them).  Both change only at quiescent points and
+	// a read's result is fixed when it begins, so the source keeps no per-call
+	// state that unordered readers (Ctrl+J) could disturb.
+	srcMode    string
+	srcHold    bool
+	srcHoldAll bool // failing and empty reads are slow as well (otherwise only reads which give the payload)
+	srcHeld    []chan struct{}
+	srcHeldCnt int64
+	suppressed []tok // shell output known to have been suppressed
 }
 
 type tok struct {
@@ -296,6 +308,10 @@ func (s *sim) outcome() *simkit.Outcome {
 		s.probes["parked_"+k] += v
 	}
 	s.parkCount = map[string]int64{}
+	if s.srcHeldCnt > 0 {
+		s.faults["insert_source_slow"] += s.srcHeldCnt
+		s.srcHeldCnt = 0
+	}
 	s.mu.Unlock()
 	o := &simkit.Outcome{Invalid: s.invalid, Steps: int64(s.step), SimNanos: s.simNanos, Faults: s.faults, Probes: s.probes,
 		NonTrivial: s.nontrivial, Violations: s.found, Trace: s.trace, HarnessErr: s.harnessErr}
@@ -311,6 +327,11 @@ func (s *sim) outcome() *simkit.Outcome {
 func (s *sim) now() int64 { return int64(time.Since(s.start)) }
 
 func (s *sim) violate(prop, inv, sig, format string, a ...any) {
+	if s.cfg.Profile == "C04" && prop == "C19" && inv == "status-always-shown" {
+		// the closure, ready and gone notices of C04 are status lines: one that
+		// never reaches the terminal is an announcement the operator did not get
+		prop, inv, sig = "C04", "notices-reach-terminal", "status line (closure / ready / gone notice) never written to the terminal"
+	}
 	for _, f := range s.found {
 		if f.Property == prop && f.Invariant == inv {
 			return
@@ -344,18 +365,8 @@ func (s *sim) main() {
 	s.ich = make(chan string, cap)
 	s.och = make(chan opshell.CLine, cap)
 	s.payload = []byte("f1() {\n echo one\n}\n# TABDOC: f1 first\n\nf2() { echo \"two\"; }\n")
-	sh, cleanup, err := opshell.New(s.ich, s.och, "> ", s.cfg.NoTS, func() ([]byte, error) {
-		s.mu.Lock()
-		s.insertN++
-		s.mu.Unlock()
-		switch s.cfg.InsertSource {
-		case "err":
-			return nil, errors.New("insert source unreadable (injected)")
-		case "empty":
-			return nil, nil
-		}
-		return s.payload, nil
-	}, "payload")
+	s.srcMode = s.cfg.InsertSource
+	sh, cleanup, err := opshell.New(s.ich, s.och, "> ", s.cfg.NoTS, s.readSource, "payload")
 	if err != nil {
 		s.harnessErr = "opshell.New: " + err.Error() + " (the worker needs a controlling terminal)"
 		return
@@ -402,11 +413,13 @@ func (s *sim) main() {
 	s.stalled = false
 	if !s.invalid && s.harnessErr == "" && len(s.found) == 0 {
 		s.disarm()
+		s.srcRelease()
 		s.settle()
 		s.finalCheck()
 		s.flushObs("{final}")
 	}
 	s.disarm()
+	s.srcRelease()
 	s.mu.Lock()
 	s.inEOF = true
 	s.mu.Unlock()
@@ -432,6 +445,49 @@ func (s *sim) main() {
 	// timers of the shell that are still pending must not outlive the bubble
 	time.Sleep(10 * time.Second)
 	synctest.Wait()
+}
+
+// readSource is the Ctrl+I source.
+func (s *sim) readSource() ([]byte, error) {
+	s.mu.Lock()
+	s.insertN++
+	mode := s.srcMode
+	var ch chan struct{}
+	if s.srcHold && (mode == "" || s.srcHoldAll) {
+		ch = make(chan struct{}) // made by a goroutine of the bubble: waiting on it blocks durably
+		s.srcHeld = append(s.srcHeld, ch)
+		s.srcHeldCnt++
+	}
+	s.mu.Unlock()
+	if ch != nil {
+		<-ch
+	}
+	switch mode {
+	case "err":
+		return nil, errors.New("insert source unreadable (injected)")
+	case "empty":
+		return nil, nil
+	}
+	return s.payload, nil
+}
+
+// heldReads: reads of the source that have begun and not returned.
+func (s *sim) heldReads() int {
+	s.mu.Lock()
+	defer s.mu.Unlock()
+	return len(s.srcHeld)
+}
+
+// srcRelease makes the source fast again and lets every read in progress return.
+func (s *sim) srcRelease() int {
+	s.mu.Lock()
+	hs := s.srcHeld
+	s.srcHeld, s.srcHold = nil, false
+	s.mu.Unlock()
+	for _, ch := range hs {
+		close(ch)
+	}
+	return len(hs)
 }
 
 func (s *sim) wake() {
@@ -603,8 +659,11 @@ func (s *sim) precond(a Action) error {
 			return fmt.Errorf("output would wait for a lock a parked goroutine holds")
 		}
 	case "key":
-		if s.stalled && len(s.expectIch)-len(s.got) > cap(s.ich) && bytes.Contains(a.B, []byte{0x0f}) {
+		if s.stalled && s.maxPending() > cap(s.ich) && bytes.Contains(a.B, []byte{0x0f}) {
 			return fmt.Errorf("the line reader is blocked on the full input channel: Ctrl+O would be handled at an unknown later time")
+		}
+		if len(s.srcHeld) > 0 && bytes.Contains(a.B, []byte{0x0f}) {
+			return fmt.Errorf("the line reader may be waiting behind an insert whose source is being read: Ctrl+O would be handled at an unknown later time")
 		}
 		if h.t {
 			return fmt.Errorf("the line reader may be the goroutine parked in the Ctrl+O callback: typed keys would queue behind it")
@@ -628,6 +687,18 @@ func (s *sim) precond(a Action) error {
 			return fmt.Errorf("a timer would wait for a lock a parked goroutine holds")
 		}
 	case "disarm":
+	case "src_mode":
+		if a.Mode != "ok" && a.Mode != "err" && a.Mode != "empty" {
+			return fmt.Errorf("bad source mode %q", a.Mode)
+		}
+	case "src_hold":
+		if a.Mode != "" && a.Mode != "all" {
+			return fmt.Errorf("bad hold mode %q", a.Mode)
+		}
+	case "src_release":
+		if len(s.srcHeld) > 0 && (len(s.parks) > 0 || s.armed["logf"] || s.armed["logf-locked"]) {
+			return fmt.Errorf("insert logging is kept out of lock-order schedules")
+		}
 	case "drain":
 		if !s.stalled {
 			return fmt.Errorf("input channel is not stalled")
@@ -652,6 +723,7 @@ func (s *sim) apply(a Action) {
 	case "key":
 		s.mu.Lock()
 		s.in = append(s.in, a.B...)
+		slow := len(s.srcHeld)
 		s.mu.Unlock()
 		for _, c := range a.B {
 			switch c {
@@ -666,15 +738,25 @@ func (s *sim) apply(a Action) {
 				}
 			case '\r':
 				s.typedLines = append(s.typedLines, string(s.curLine))
-				s.expectIch = append(s.expectIch, string(s.curLine))
+				s.expect = append(s.expect, expEnt{text: string(s.curLine)})
 				s.curLine = nil
+				if slow > 0 {
+					s.probes["line_typed_behind_slow_insert"]++
+				}
 			case 0x09:
-				// nothing is inserted if the source is unreadable or empty in this
-				// run, and nothing else is held up by that
-				if s.cfg.InsertSource == "" {
-					s.expectIch = append(s.expectIch, string(s.payload))
-				} else {
-					s.faults["insert_source_"+s.cfg.InsertSource]++
+				// what is inserted is what the source gives when the shell reads it,
+				// some time from now on: see expEnt
+				e := expEnt{text: string(s.payload), insert: true}
+				e.see(s.srcMode)
+				s.expect = append(s.expect, e)
+				if s.srcMode != "" {
+					s.faults["insert_source_"+s.srcMode]++
+					if slow > 0 {
+						s.probes["failed_insert_behind_slow_insert"]++
+					}
+				}
+				if slow > 0 {
+					s.probes["insert_behind_slow_insert"]++
 				}
 				s.probes["ctrl_i"]++
 			case 0x0a:
@@ -733,6 +815,38 @@ func (s *sim) apply(a Action) {
 	case "drain":
 		s.stalled = false
 		s.probes["input_channel_drained"]++
+	case "src_mode":
+		m := a.Mode
+		if m == "ok" {
+			m = ""
+		}
+		s.mu.Lock()
+		changed := m != s.srcMode
+		s.srcMode = m
+		s.mu.Unlock()
+		if changed {
+			s.probes["src_mode_switched"]++
+			// an insert still under way may read the source before or after this
+			for i := range s.expect {
+				e := &s.expect[i]
+				if e.insert && !e.frozen {
+					was := e.optional()
+					e.see(m)
+					if !was && e.optional() {
+						s.faults["insert_source_switched_while_pending"]++
+					}
+				}
+			}
+		}
+	case "src_hold":
+		s.mu.Lock()
+		s.srcHold, s.srcHoldAll = true, a.Mode == "all"
+		s.mu.Unlock()
+		s.probes["src_hold"]++
+	case "src_release":
+		if n := s.srcRelease(); n > 0 {
+			s.probes["src_release_with_reads_in_progress"]++
+		}
 	case "eof":
 		s.sentEOF = true
 		s.mu.Lock()
